@@ -442,6 +442,8 @@ def check_C11(ctx, rep):
 
 
 def check_C12(ctx, rep):
+    small_models2.check_accepts_rejects_checker(ctx, rep, ctx.prog.func('notebook.check_automaton_accepts_rejects'))
+    rep.clauses_decided.append('check_automaton_accepts_rejects prints OK exactly when a model DFA accepts every word of the first list and rejects every word of the second, on 225 pairs of lists with the empty word in every position (K12, finite model)')
     small_models2.check_subset_name_readers(ctx, rep, ctx.prog.func('notebook_nfa2dfa.check_nfa_to_dfa_answer'), ctx.prog.func('dfa.print_state_set'))
     rep.clauses_decided.append('the helper of the NFA-to-DFA checker that decodes subset names inverts print_state_set on the empty set, a singleton and larger sets (R-IO.inv, finite model)')
     rep.clauses_decided += ['no recorded error is dropped (K1)', 'OK and an error never lie on one path (K2)', 'handlers report errors (K3)',
